@@ -156,6 +156,11 @@ def is_shared_global(o):
     return o[0] != "F" and o[0][0] == "G" and not o[1]
 
 
+def is_shared_cached(o):
+    """(part of) a value stored in an lru_cache: root ("C", qualified name of the memoised function)"""
+    return o[0] != "F" and o[0][0] == "C" and not o[1]
+
+
 FSET = frozenset({F})
 STALE = "$stale"
 MUST = "$must"       # strong updates of container elements: {text of `x[k]`: Val last stored there}
@@ -238,6 +243,8 @@ class Engine:
 
     def __init__(self, prog, scope=None, backends=("yastn.backend.backend_np",), max_rounds=40, exempt=None):
         self.prog = prog
+        self.track_cached = False       # C16-K3: give results of memoised functions their own root
+        self.cached_writes = []         # (FuncInfo, WriteEvent, origin)
         self.exempt = exempt or {}      # (func short name, param name, path) -> reason: writes ignored at the source
         self.exempt_hits = []
         self.scope = set(scope) if scope is not None else None
@@ -717,6 +724,10 @@ class FunctionAnalysis:
                             s.mut_sites[i].append(site)
                 elif is_shared_global(o):
                     s.gwrites.add(o[0][1])
+                elif is_shared_cached(o):
+                    rec = (self.fi, ev, o)
+                    if not any(r[0] is self.fi and r[1].node is ev.node and r[2] == o for r in self.eng.cached_writes):
+                        self.eng.cached_writes.append(rec)
         s.ret |= {o for o in self.ret if o[0] != "F"}
         s.returns_value = s.returns_value or self.returns_value
         if self.fi.name in ("__init__", "__post_init__", "__new__") and self.params:
@@ -1651,7 +1662,7 @@ class FunctionAnalysis:
                 continue
             for m in paths:
                 targets = dpath(binding[pi].o, m)
-                if any(is_shared_param(o) or is_shared_global(o) for o in targets):
+                if any(is_shared_param(o) or is_shared_global(o) or is_shared_cached(o) for o in targets):
                     site = s.mut_sites.get(pi, [("?", 0, "?")])
                     self.write(call, f"call of {f.short}() which writes its parameter `{f.params[pi]}`"
                                + (f" at .{'.'.join(m)}" if m else ""), targets, call, via=(f, pi, m, site[:3]))
@@ -1662,6 +1673,9 @@ class FunctionAnalysis:
         out = set(FSET)
         for o in s.ret:
             out |= self.instantiate(o, binding)
+        if self.eng.track_cached and any("lru_cache" in d for d in f.decorators):
+            # the very object stored in the cache is handed out on every hit
+            out.add((("C", f.qualname), (), ()))
         return Val(out)
 
     @staticmethod
